@@ -272,9 +272,13 @@ theorem repoStat_clauses (i : Input) (sl : Option Bytes) (d : List DReq) :
   unfold hClauses repoStatH
   by_cases hf : i.env.fail .peers = true
   · simp [hf, mkOut, Output.success, doneOps]
-  · by_cases hg : i.env.fail .repoStat = true
-    · simp [hf, hg, mkOut, Output.success, doneOps, RpcName.mutating, opsAsRequested, List.filter_replicate]
-    · simp [hf, hg, mkOut, Output.success, doneOps, RpcName.mutating, opsAsRequested, List.filter_replicate]
+  · have hnil : List.filter (fun r : Rpc => r.ok && r.name.mutating)
+        ((List.range i.env.npeers).map (fun k => ({ name := .repoStat, ok := statOk i.env k } : Rpc))) = [] := by
+      rw [List.filter_eq_nil_iff]
+      intro r hr
+      obtain ⟨k, _, rfl⟩ := List.mem_map.1 hr
+      simp [RpcName.mutating]
+    simp [hf, mkOut, Output.success, doneOps, RpcName.mutating, opsAsRequested, hnil]
 
 theorem repoGC_clauses (i : Input) (sl : Option Bytes) (d : List DReq) :
     hClauses i .repoGC sl (mkOut (repoGCH i.env) d) := by
